@@ -1,6 +1,7 @@
 """C02 - execution computes what the spec computes: isolation and structure only."""
 from __future__ import annotations
 
+from rules import generic_rules as G
 from rules import exec_rules as X, identity, schema_rules as S, write_effect as W
 from rules.astmodel import AstModel
 from sa.loader import Repo
@@ -56,6 +57,8 @@ def run(check: Check, repo: Repo, tier: str) -> None:
     X.collect_guard(check, repo)
     X.handler_nulls(check, repo, repo.package_modules("execution"))
     X.zip_align(check, repo, repo.package_modules("execution"))
+    G.sentinel_identity(check, mods)
+    check.floor("SENTINEL-IDENTITY", 15, "comparisons against Undefined on the argument/variable path")
     # dispatch exhaustiveness
     check.rule("DISPATCH-EXH", "every member of a closed class family has a handling arm in the dispatch")
     preds = S.predicate_classes(repo)
